@@ -2,8 +2,9 @@
 (* Model of schedule_sources/label_based.py: get_schedules() filters the     *)
 (* live task.labels["schedule"] lists of own-broker tasks; post_send() of a   *)
 (* time-only schedule pops the entry that was sent (recognised by the id      *)
-(* get_schedules() stored in it; several entries may share a time).           *)
-EXTENDS LblProps
+(* get_schedules() stored in it; several entries may share a time, and       *)
+(* entries with explicit ids - field i > 0 - may share an id as well).        *)
+EXTENDS LblProps, FiniteSetsExt
 CONSTANTS Cfgs, MaxOps, AllowedViol
 VARIABLES cfg, ent, nops, out, obs, viol
 vars == <<cfg, ent, nops, out, obs, viol>>
@@ -24,7 +25,13 @@ Fire(task, pos) ==
             (* the entry that fired: the n-th listable entry of the task (recognised by its schedule id in the code) *)
             listable == SelectSeq([j \in 1..Len(ent[task]) |-> j], LAMBDA j : Listable(ent[task][j]))
             fired == listable[n]
-        IN /\ ent' = IF s.k = "time" THEN [ent EXCEPT ![task] = DropAt(@, fired)] ELSE ent
+            fe == ent[task][fired]
+            (* post_send's first pass pops the FIRST entry with the fired time AND the fired schedule id: with a        *)
+            (* generated id (i = 0: unique, stored in the entry by get_schedules) that is the fired entry itself, with  *)
+            (* explicit ids (i > 0) that several entries of the task share it is the first of those with that time      *)
+            target == IF fe.i = 0 THEN fired
+                      ELSE Min({j \in 1..Len(ent[task]) : ent[task][j].i = fe.i /\ ent[task][j].t = fe.t /\ ent[task][j].k \in {"time", "both"}})
+        IN /\ ent' = IF s.k = "time" THEN [ent EXCEPT ![task] = DropAt(@, target)] ELSE ent
            /\ Emit(<<[E0 EXCEPT !.e = "fire", !.task = task, !.k = s.k, !.t = s.t, !.a = s.a],
                      [E0 EXCEPT !.e = "kick", !.task = task, !.a = s.a]>>)
   /\ nops' = nops + 1 /\ UNCHANGED cfg
